@@ -271,5 +271,32 @@ fn x_routes() {
             st.sample(format!("{} frames x {} layers", s.frames.len(), s.layers.len()));
         }
     }
+    // layer ids are u32 in the API but cel ids store the layer as u16: a sprite with more layers than a cel can
+    // name must either be refused or keep every id distinct (65537 layers, one cel in layer 0; ~1.6 MB)
+    for nlayers in [65536usize, 65537] {
+        let mut s = Sprite::new(1, 1, Fmt::Rgba, 1);
+        for _ in 0..nlayers {
+            s.layers.push(LayerM::image(""));
+        }
+        s.frames[0].cels.push(CelM { layer: 0, x: 0, y: 0, opacity: 255, kind: CelKind::Raw { w: 1, h: 1, px: vec![255, 0, 0, 255] }, ud: None, zlib: None });
+        let bytes = encode(&s);
+        st.case(&(nlayers, bytes.len()), true);
+        if let Ok(f) = load(&bytes) {
+            for l in [0u32, 1, 65535, nlayers as u32 - 1] {
+                let a = f.cel(0, l);
+                let frame = f.frame(0);
+                let b = frame.layer(l);
+                let layer = f.layer(l);
+                let c = layer.frame(0);
+                for (nm, x) in [("direct", &a), ("frame.layer", &b), ("layer.frame", &c)] {
+                    if (x.frame(), x.layer()) != (0, l) || x.is_empty() != (l != 0) {
+                        st.fail(format!("{} layers: route {} to cel (0, {}) reports frame {}, layer {}, empty {} (the only cel is in layer 0)", nlayers, nm, l, x.frame(), x.layer(), x.is_empty()), None);
+                    }
+                }
+            }
+        } else if nlayers <= 65536 {
+            st.fail(format!("a sprite with {} layers (all addressable by a 16-bit cel layer index) is refused", nlayers), None);
+        }
+    }
     st.finish();
 }
